@@ -6,7 +6,7 @@ from .. import core, femcommon as fc, gen_mesh as gm
 ID = "C08"
 LIMIT = 40.0
 RULE = ("connected triangle meshes (flat: grids, planar Delaunay, rigidly moved; curved: height fields, polyhedra, tori) and connected "
-        "tet meshes (oriented / unoriented / mixed), all vertices used x vertex functions (affine with random direction, random smooth; "
+        "tet meshes (oriented / unoriented / mixed), all vertices used x vertex functions (affine with random direction, 30% of them of unit slope, random smooth; "
         "amplitudes 1, 1e-3, 1e-9, 1e-17, 1e-30, 1e8 (float32: >= 1e-9); dtypes float64, float32, int64). distinct = hash of the case; non-trivial = >= 4 elements")
 TRUSTED = ["SuperLU on the singular but consistent system A g = div is an oracle; whether it returns, raises or emits non-finite values "
            "is runtime behaviour no theorem covers (monitored: see known finding F17)"]
@@ -84,10 +84,12 @@ def generate(rng, tier):
                 n = np.cross(p[c["t"][0][1]] - p[c["t"][0][0]], p[c["t"][0][2]] - p[c["t"][0][0]])
                 n = n / np.linalg.norm(n)
                 a = a - n * (n @ a)
+            if rng.random() < 0.3:
+                a = a / np.linalg.norm(a)       # already of unit slope (e.g. a coordinate, a distance function, a previous result)
             f = p @ a + 0.4
         else:
             f = np.sin(p @ a) + 0.5 * (p @ np.array([0.3, -0.2, 0.5]))
-        amp = rng.choice([1.0, 1.0, 1e-3, 1e-9, 1e-17, 1e-30, 1e8])      # only the direction of the gradient may matter
+        amp = rng.choice([1.0, 1.0, 1.0, 1e-3, 1e-9, 1e-17, 1e-30, 1e8])      # only the direction of the gradient may matter
         fd = rng.choice(["float64", "float64", "float32", "int64"])
         if fd == "float32" and amp < 1e-9:
             amp = 1e-9          # squares of smaller gradients underflow in single precision
